@@ -17,6 +17,9 @@ import pyvc
 from pyvc import contracts
 
 ROOT = pyvc.ROOT
+# where evidence/ and replays/ are written: /verif itself, or a scratch directory for runs against a patched copy
+# (seeded changes, canaries), so that they never overwrite the evidence of the real tree
+OUT = os.environ.get('VERIF_OUT') or ROOT
 REPO = pyvc.REPO
 
 TASKS = []          # non-K1 obligation sources: dict(name, props, fn, kind)
@@ -93,10 +96,23 @@ def sanitize(name):
     return re.sub(r'[^A-Za-z0-9_.+-]+', '_', name)[:150]
 
 
+_BASELINE = None
+
+
+def load_baseline():
+    global _BASELINE
+    if _BASELINE is None:
+        try:
+            _BASELINE = json.load(open(os.path.join(ROOT, 'baseline_counts.json')))
+        except Exception:
+            _BASELINE = {}
+    return _BASELINE
+
+
 def run_property(prop, tier, seed, only=None, jobs=None):
     t0 = time.time()
     import shutil
-    shutil.rmtree(os.path.join(ROOT, 'replays', prop), ignore_errors=True)
+    shutil.rmtree(os.path.join(OUT, 'replays', prop), ignore_errors=True)
     contracts.load_all()
     load_tasks()
     timeout_ms = 10000 if tier == 'quick' else 60000
@@ -119,12 +135,18 @@ def run_property(prop, tier, seed, only=None, jobs=None):
                 pool.terminate()
                 print('CHECKER-ERROR: obligation sources did not finish within %d s' % limit)
                 return 3
-    return finish(prop, tier, seed, k1, tres, t0)
+    rc_missing = []
+    if not only:
+        have = {r['key'] for r in k1}
+        for key in load_baseline().get(prop, {}):
+            if key not in have:
+                rc_missing.append('%s: under contract in the committed baseline but no contract produced obligations for it now' % key)
+    return finish(prop, tier, seed, k1, tres, t0, rc_missing)
 
 
-def finish(prop, tier, seed, k1, tres, t0):
+def finish(prop, tier, seed, k1, tres, t0, extra_errors=()):
     known = load_known()
-    errors, obligations, assumptions = [], [], set()
+    errors, obligations, assumptions = list(extra_errors), [], set()
     functions, bounded = [], []
     solver_time = 0.0
     by_backend = {}
@@ -135,12 +157,21 @@ def finish(prop, tier, seed, k1, tres, t0):
                               normal_exits=r.get('normal_exits'), exceptional_exits=r.get('exc_exits'),
                               contract=r.get('contract_file'),
                               obligations=len(r.get('obligations', [])),
+                              distinct_obligations=len({o['name'] for o in r.get('obligations', [])}),
                               bounded=r.get('bounded', False), wall_s=r.get('wall'),
                               native=r.get('native')))
         for a in r.get('assumptions', []):
             assumptions.add('%s: %s' % (r['key'], a))
         if r.get('error') is None and not r.get('obligations'):
             errors.append('%s: zero obligations generated (vacuous)' % r['key'])
+        # guard against silently losing obligations: for unchanged source the number of obligation instances may not
+        # drop below the committed baseline (baseline_counts.json, regenerated deliberately with tools/gen_baseline.py)
+        base = load_baseline().get(prop, {}).get(r['key'])
+        if base and r.get('error') is None and r.get('src') and base.get('hash') == r['src'].get('hash') \
+                and len({o['name'] for o in r.get('obligations', [])}) < base.get('names', 0):
+            errors.append('%s: %d distinct obligations generated, the committed baseline for this unchanged source has %d '
+                          '(obligations were lost: contract or engine regression)' % (
+                              r['key'], len({o['name'] for o in r.get('obligations', [])}), base['names']))
         if r.get('error') is None and not r.get('normal_exits') and not r.get('exc_exits'):
             errors.append('%s: no path reaches an exit (vacuous)' % r['key'])
         for o in r.get('obligations', []):
@@ -202,8 +233,8 @@ def finish(prop, tier, seed, k1, tres, t0):
     # bounded stand-ins and recorded known findings are reported separately, never among the proof obligations
     nobl = len(agg) - nbounded - len([1 for k, a in known_hits if not a['bounded']])
     # ---- output
-    os.makedirs(os.path.join(ROOT, 'evidence'), exist_ok=True)
-    rdir = os.path.join(ROOT, 'replays', prop)
+    os.makedirs(os.path.join(OUT, 'evidence'), exist_ok=True)
+    rdir = os.path.join(OUT, 'replays', prop)
     lines = []
     for k, a in known_hits:
         lines.append('KNOWN-FINDING: property=%s %s [%s]' % (prop, k.get('what', ''), a['name']))
@@ -216,7 +247,7 @@ def finish(prop, tier, seed, k1, tres, t0):
         json.dump(rep, open(path, 'w'), indent=1, default=str)
         nat = inst.get('native') or {}
         suffix = '' if nat.get('confirmed') else ' no-failing-input-found'
-        lines.append('VIOLATION property=%s replay=%s%s' % (prop, os.path.relpath(path, ROOT), suffix))
+        lines.append('VIOLATION property=%s replay=%s%s' % (prop, os.path.relpath(path, OUT), suffix))
     samples = []
     for name, a in list(sorted(agg.items()))[:6]:
         samples.append(dict(obligation=name, kind=a['kind'], verdict=a['verdict'], backend=a['backend'],
@@ -247,7 +278,7 @@ def finish(prop, tier, seed, k1, tres, t0):
               wall_s=round(time.time() - t0, 2), violations=len(violations))
     if errors:
         ev['coverage']['checker_errors'] = errors[:50]
-    json.dump(ev, open(os.path.join(ROOT, 'evidence', prop + '.json'), 'w'), indent=1, default=str)
+    json.dump(ev, open(os.path.join(OUT, 'evidence', prop + '.json'), 'w'), indent=1, default=str)
     for l in lines:
         print(l)
     print('[%s] obligations=%d proved=%d refuted=%d (known=%d) undecided=%d bounded=%d errors=%d functions=%d wall=%.1fs'
